@@ -1,4 +1,26 @@
-"""C02 worker: spin<->binary conversions through every entry point, and edits through views."""
+"""C02 worker: spin<->binary conversions through every entry point, and edits through views.
+
+Coverage (property clause -> stream):
+  BQM.change_vartype                         bqm_change: float64 / float32 / object storage, in place and not, there-and-back,
+                                             raw adjacency (AdjConv) / dict back-end (PyConv) fed to the code-shaped models
+  live .spin / .binary views, reads          view_read: linear / quadratic / offset / get_linear / get_quadratic; copies of the
+                                             view (copy, deep copy, change_vartype(inplace=False) to either vartype) against
+                                             the base and edited afterwards (no shared state)
+  ... writes                                 view_write: add/set linear and quadratic, offset, scale, remove_variable (named /
+                                             pop), remove_interaction (present / absent -> ValueError), add_variable (new label /
+                                             existing, with bias), add_linear_equality_constraint; view_same: after the base
+                                             changed vartype in place
+  QM change_vartype / spin_to_binary         qm_change (SPIN<->BINARY, to INTEGER, refused changes -> TypeError), qm_s2b
+  CQM change_vartype / spin_to_binary        cqm_change, cqm_s2b: objective over all / some / none of the variables (spin
+                                             variables only in constraints or in no expression), 0-3 constraints over random
+                                             subsets, discrete constraints, to INTEGER, refused changes; activity: lhs
+                                             coefficients + sense / rhs unchanged; raw index-level state fed to the loop models
+  flip_variable                              flip: QM / BQM (3 dtypes) / CQM incl. refused flips and discrete markers
+  BinaryPolynomial.to_spin / to_binary       poly (copy=True, receiver untouched, round trip)
+  to_ising / to_qubo / from_* / free functions   bqm_to_from, ising_qubo (dicts in, dicts out, insertion order)
+  SampleSet.change_vartype                   sampleset: in place / copy, pending (future-backed) sets, signed / unsigned / bool /
+                                             float sample storage, refused targets
+"""
 import copy
 from fractions import Fraction
 import numpy as np
@@ -11,6 +33,25 @@ from gen import F, enc_label, dec_label, LabelTable, coq_obs, fs
 
 KINDS = ['bqm_change', 'bqm_change', 'view_read', 'view_write', 'view_write', 'view_same', 'qm_change', 'qm_s2b',
          'cqm_change', 'cqm_s2b', 'poly', 'ising_qubo', 'bqm_to_from', 'sampleset', 'flip']
+
+
+def restrict_desc(desc, keep):
+    """the description restricted to the variables whose str(label) is in `keep` (terms touching others dropped)"""
+    return {"vars": [v for v in desc["vars"] if str(v[0]) in keep],
+            "lin": [t for t in desc["lin"] if str(t[0]) in keep],
+            "quad": [t for t in desc["quad"] if str(t[0]) in keep and str(t[1]) in keep],
+            "off": desc["off"]}
+
+
+def rand_objective(rng, base):
+    """objective of a CQM over the variables of `base`: all of them (half of the time), a random subset, or none, so
+    that variables occur only in constraints / in no expression at all (they are still variables of the CQM)"""
+    r = rng.random()
+    if r < 0.5:
+        return base
+    if r < 0.9:
+        return restrict_desc(base, {str(v[0]) for v in base["vars"] if rng.random() < 0.5})
+    return restrict_desc(base, set())
 
 
 def gen_case(rng, tier):
@@ -67,6 +108,7 @@ def gen_case(rng, tier):
             sub["off"] = str(rng.dyadic())
             c["con"] = sub
             c["discrete"] = rng.random() < 0.6
+            c["obj"] = rand_objective(rng, base)
         return c
     if kind.startswith(('bqm', 'view', 'ising')):
         c["dtype"] = rng.choice(['f64', 'f64', 'f32', 'obj'])
@@ -92,15 +134,25 @@ def gen_case(rng, tier):
                 elif r < 0.8 and len(labels) > 1:
                     u, v = rng.sample(labels, 2)
                     ops.append(["set_quadratic", u, v, b])
-                elif r < 0.86:
+                elif r < 0.84:
                     ops.append(["offset", b])
-                elif r < 0.90 and kind == 'view_write' and len(labels) > 1:
+                elif r < 0.87 and kind == 'view_write' and len(labels) > 1:
+                    # remove_interaction through the view (present or absent: the latter must raise ValueError)
+                    u, v = rng.sample(labels, 2)
+                    ops.append(["remove_interaction", u, v])
+                elif r < 0.89 and kind == 'view_write':
+                    # add_variable(v, bias) through the view: a new label, or an existing one (bias is added)
+                    new = rng.choice([enc_label(('n', len(ops))), rng.choice(labels)])
+                    ops.append(["add_variable", new, b])
+                    if new not in labels:
+                        labels = list(labels) + [new]
+                elif r < 0.92 and kind == 'view_write' and len(labels) > 1:
                     # removing a variable through the view (named, or popping the last one)
                     # (popping through a view of an object-dtype BQM raises TypeError: open finding C04-d6)
                     ops.append(["remove", rng.choice(labels) if c["dtype"] == 'obj' else rng.choice([None, None, rng.choice(labels)])])
                     labels = list(labels)
                     labels.remove(ops[-1][1]) if ops[-1][1] is not None else labels.pop()
-                elif r < 0.95 and kind == 'view_write':
+                elif r < 0.96 and kind == 'view_write':
                     k = rng.randint(1, len(labels))
                     ops.append(["add_eq", [[l, str(rng.randint(-3, 3) * 2)] for l in rng.sample(labels, k)],
                                 str(rng.choice([2, 4])), str(rng.randint(-2, 2) * 2)])
@@ -114,7 +166,7 @@ def gen_case(rng, tier):
     c["desc"] = gen.rand_desc(rng, nmax=5, nmin=1)
     if kind.startswith('cqm'):
         base = c["desc"]
-        exprs = [base]
+        exprs = [rand_objective(rng, base)]
         for _ in range(rng.randint(0, 3)):
             keep = {str(v[0]) for v in base["vars"] if rng.random() < 0.6}
             sub = gen.rand_desc(rng, nmax=0)
@@ -131,6 +183,14 @@ def gen_case(rng, tier):
     sb = [v for v in c["desc"]["vars"] if v[1] in ('SPIN', 'BINARY')]
     c["target"] = rng.choice(sb)[0] if sb else None
     c["inplace"] = rng.random() < 0.5
+    if kind in ('qm_change', 'cqm_change'):
+        # SPIN -> INTEGER goes through BINARY (x = (s+1)/2), BINARY -> INTEGER only re-types; every other change of a
+        # variable's vartype must be refused (TypeError) and leave the model as it was
+        c["to_integer"] = rng.random() < 0.2
+        v = rng.choice(c["desc"]["vars"])
+        bad = [t for t in ('SPIN', 'BINARY', 'INTEGER', 'REAL')
+               if t != v[1] and (v[1], t) not in (('SPIN', 'BINARY'), ('BINARY', 'SPIN'), ('SPIN', 'INTEGER'), ('BINARY', 'INTEGER'))]
+        c["refused"] = [v[0], rng.choice(bad)] if rng.random() < 0.3 else None
     return c
 
 
@@ -244,6 +304,19 @@ def run_case(c):
         if [(list(k), F(v)) for k, v in poly.items()] != before:
             py_fail = "to_spin/to_binary(copy=True) modified the receiver"
         back = new.to_spin(copy=True) if d == 'S2B' else new.to_binary(copy=True)
+        # copy=False: a conversion to the polynomial's own vartype returns the polynomial itself, copy=True a detached equal one;
+        # a real conversion never returns (or edits) the receiver
+        ident = poly.to_spin if c["vartype"] == 'SPIN' else poly.to_binary
+        conv_nc = (poly.to_binary(copy=False) if c["vartype"] == 'SPIN' else poly.to_spin(copy=False))
+        if ident(copy=False) is not poly:
+            py_fail = "to_<own vartype>(copy=False) did not return the polynomial itself"
+        cp = ident(copy=True)
+        if cp is poly or cp != poly or cp.vartype is not poly.vartype:
+            py_fail = "to_<own vartype>(copy=True) is not a detached equal copy"
+        if conv_nc is poly or [(list(k), F(v)) for k, v in conv_nc.items()] != after:
+            py_fail = "conversion with copy=False differs from the one with copy=True"
+        if [(list(k), F(v)) for k, v in poly.items()] != before:
+            py_fail = "to_spin/to_binary modified the receiver"
         if {frozenset(k): F(v) for k, v in back.items() if v} != {frozenset(k): F(v) for k, v in poly.items() if v}:
             py_fail = "round trip does not restore the coefficients"
 
@@ -327,7 +400,7 @@ def run_case(c):
                     cqm.add_variable(vt, dec_label(l), lower_bound=lb, upper_bound=ub)
                 else:
                     cqm.add_variable(vt, dec_label(l))
-            cqm.set_objective(gen.build_qm(desc))
+            cqm.set_objective(gen.build_qm(c.get("obj", desc)))
             labs = [cqm.add_constraint_from_model(gen.build_qm(c["con"]), '<=', rhs=1.0, label='c1')]
             bins = [dec_label(v[0]) for v in desc["vars"] if v[1] == 'BINARY']
             if c.get("discrete") and len(bins) >= 2:
@@ -365,7 +438,7 @@ def run_case(c):
         d = 'S2B' if vt == 'SPIN' else 'B2S'
         vars_ = clist([cnat(T.idx(l)) for l in labels])
         before = gen.observe(bqm)
-        n = cnat(len(labels) + 1)
+        n = cnat(len(labels) + 1 + len(c.get("ops", [])))       # room for variables added through the view
         samples = samples_for(1, labels, lambda l: dom(other))
         feats["dtype"] = c["dtype"]
         if kind == 'bqm_change':
@@ -440,7 +513,27 @@ def run_case(c):
             for u, v, b in vobs["quad"]:
                 if fs(view.get_quadratic(dec_label(u), dec_label(v))) != b:
                     py_fail = "view.quadratic and view.get_quadratic disagree"
-            return {"coq": f"(ViewRead {n} {d} {vars_} {coq_obs(before, T)} {coq_obs(vobs, T)})", "py_fail": py_fail,
+            extra = []
+            # copies of the view are detached models of the VIEW's vartype (VartypeView.__copy__ converts a copy of the
+            # base); change_vartype(inplace=False) back to the base's vartype gives the base's own coefficients
+            for how in ('copy', 'deepcopy', 'change_back', 'change_same'):
+                cp = {'copy': lambda: view.copy(), 'deepcopy': lambda: view.copy(deep=True),
+                      'change_back': lambda: view.change_vartype(vt, inplace=False),
+                      'change_same': lambda: view.change_vartype(other, inplace=False)}[how]()
+                want_vt = vt if how == 'change_back' else other
+                if cp.vartype is not gen.VT[want_vt]:
+                    py_fail = f"view.{how}: vartype {cp.vartype}, expected {want_vt}"
+                smp = samples_for(4, labels, lambda l: dom(want_vt))
+                extra.append(f"(Conv {n} {d} {'[]' if how == 'change_back' else vars_} {coq_obs(before, T)} {coq_obs(gen.observe(cp), T)} {coq_samples(smp, T)})")
+                # aliasing: editing the copy must not reach the base model or the view
+                if labels:
+                    cp.add_linear(labels[0], 4.0)
+                cp.offset += 8.0
+                if gen.observe(bqm) != before or gen.observe(view) != vobs:
+                    py_fail = f"editing the result of view.{how} changed the base model"
+            if view.vartype is not gen.VT[other] or bqm.vartype is not gen.VT[vt]:
+                py_fail = "copying the view changed a vartype"
+            return {"coq": f"(ViewRead {n} {d} {vars_} {coq_obs(before, T)} {coq_obs(vobs, T)})", "extra_coq": extra, "py_fail": py_fail,
                     "features": feats, "nontrivial": bool(before["lin"])}
         if kind == 'view_same':
             # the base changes vartype in place: the cached view now has the base's vartype
@@ -453,7 +546,30 @@ def run_case(c):
             b0 = gen.observe(bqm)
             name = op[0]
             try:
-                if name == "add_linear":
+                if name == "remove_interaction":
+                    u, v = dec_label(op[1]), dec_label(op[2])
+                    if (u, v) in bqm.quadratic:
+                        view.remove_interaction(u, v)
+                        if (u, v) in bqm.quadratic or (u, v) in view.quadratic:
+                            return {"py_fail": "the interaction is still there after view.remove_interaction", "features": feats}
+                        o = f"(VSetQuad {cnat(T.idx(op[1]))} {cnat(T.idx(op[2]))} {cq(F(0))})"
+                        feats["remove_interaction"] = True
+                    else:
+                        try:
+                            view.remove_interaction(u, v)
+                            return {"py_fail": "view.remove_interaction of an absent interaction did not raise", "features": feats}
+                        except ValueError:
+                            pass
+                        if gen.observe(bqm) != b0:
+                            return {"py_fail": "a refused view.remove_interaction changed the base model", "features": feats}
+                        continue
+                elif name == "add_variable":
+                    got = view.add_variable(dec_label(op[1]), float(F(op[2])))
+                    if got != dec_label(op[1]):
+                        return {"py_fail": f"view.add_variable returned {got!r}", "features": feats}
+                    o = f"(VAddLin {cnat(T.idx(op[1]))} {cq(F(op[2]))})"
+                    feats["add_variable"] = True
+                elif name == "add_linear":
                     view.add_linear(dec_label(op[1]), float(F(op[2])))
                     o = f"(VAddLin {cnat(T.idx(op[1]))} {cq(F(op[2]))})"
                 elif name == "set_linear":
@@ -488,6 +604,8 @@ def run_case(c):
                     o = f"(VScale {cq(F(op[1]))})"
             except Exception as e:
                 return {"py_fail": f"edit {op} through the view raised {type(e).__name__}: {e}", "features": feats}
+            if vars_ != "[]":
+                vars_ = clist([cnat(T.idx(l)) for l in dict.fromkeys(labels + [dec_label(x) for x in b0["vars"]] + list(bqm.variables))])
             coqs.append(f"(ViewWrite {n} {d} {vars_} {coq_obs(b0, T)} {o} {coq_obs(gen.observe(bqm), T)} {coq_obs(gen.observe(view), T)})")
         if not coqs:
             return {"coq": None, "nontrivial": False, "features": feats}
@@ -509,12 +627,31 @@ def run_case(c):
             if target is None:
                 return {"coq": None, "nontrivial": False, "features": feats}
             tv = vtmap[str(target)]
+            refused_terms = []
+            if c.get("refused"):
+                rv, rt = dec_label(c["refused"][0]), c["refused"][1]
+                raw0, obs0 = raw_qmi(qm), gen.observe(qm)
+                try:
+                    qm.change_vartype(rt, rv)
+                    py_fail = f"change_vartype({rt}) of a {vtmap[str(rv)]} variable did not raise"
+                except TypeError:
+                    refused_terms.append(f"(QmCv {rt} {cnat(qvars.index(rv))} {raw0} None)")
+                    if gen.observe(qm) != obs0 or raw_qmi(qm) != raw0:
+                        py_fail = "a refused change_vartype modified the model"
+                feats["refused"] = True
             new_vt = 'BINARY' if tv == 'SPIN' else 'SPIN'
-            qm.change_vartype(new_vt, target)
-            conv = [target]
             d = 'S2B' if tv == 'SPIN' else 'B2S'
+            conv = [target]
+            if c.get("to_integer"):
+                new_vt = 'INTEGER'
+                feats["to_integer"] = True
+                if tv == 'BINARY':
+                    conv = []                      # only the declared vartype changes
+            qm.change_vartype(new_vt, target)
             if qm.vartype(target) is not gen.VT[new_vt]:
                 py_fail = "vartype not updated"
+            if new_vt == 'INTEGER' and (qm.lower_bound(target), qm.upper_bound(target)) != (0, 1):
+                py_fail = "bounds after the change to INTEGER are not [0, 1]"
             new = qm
         else:
             new = qm.spin_to_binary(inplace=c["inplace"])
@@ -526,7 +663,7 @@ def run_case(c):
                 py_fail = "a SPIN variable is left after spin_to_binary"
         for v in allvars:
             l = dec_label(v[0])
-            if l not in conv and new.vartype(l) is not gen.VT[v[1]]:
+            if l not in conv and l != target and new.vartype(l) is not gen.VT[v[1]]:
                 py_fail = f"vartype of unrelated variable {l!r} changed"
         after = gen.observe(new)
         vtnew = dict(vtmap)
@@ -537,7 +674,7 @@ def run_case(c):
         vars_ = clist([cnat(T.idx(l)) for l in conv])
         # the C++ / python loops on the raw state (adjacency structure + varinfo)
         if kind == 'qm_change':
-            extra = [f"(QmCv {new_vt} {cnat(qvars.index(target))} {rawq_before} (Some {raw_qmi(new)}))"]
+            extra = [f"(QmCv {new_vt} {cnat(qvars.index(target))} {rawq_before} (Some {raw_qmi(new)}))"] + refused_terms
         else:
             extra = [f"(QmS2B {rawq_before} {raw_qmi(new)})"]
         return {"coq": f"(Conv {n} {d} {vars_} {coq_obs(before, T)} {coq_obs(after, T)} {coq_samples(samples, T)})",
@@ -565,6 +702,8 @@ def run_case(c):
 
     def exprs(m):
         return [m.objective] + [m.constraints[l].lhs for l in labs]
+    objvars = set(cqm.objective.variables)
+    feats["spin_outside_objective"] = any(v[1] == 'SPIN' and dec_label(v[0]) not in objvars for v in allvars)
     before = [gen.observe(x) for x in exprs(cqm)]
     attrs = [(str(cqm.constraints[l].sense), fs(cqm.constraints[l].rhs)) for l in labs]
     rawc_before = raw_mcqm(cqm, labs)
@@ -573,9 +712,29 @@ def run_case(c):
         if target is None:
             return {"coq": None, "nontrivial": False, "features": feats}
         tv = vtmap[str(target)]
+        refused_terms = []
+        if c.get("refused"):
+            rv, rt = dec_label(c["refused"][0]), c["refused"][1]
+            raw0 = raw_mcqm(cqm, labs)
+            try:
+                cqm.change_vartype(rt, rv)
+                py_fail = f"CQM.change_vartype({rt}) of a {vtmap[str(rv)]} variable did not raise"
+            except TypeError:
+                refused_terms.append(f"(CqmCv {rt} {cnat(cvars.index(rv))} {raw0} None)")
+                if raw_mcqm(cqm, labs) != raw0:
+                    py_fail = "a refused CQM.change_vartype modified the model"
+            feats["refused"] = True
         new_vt = 'BINARY' if tv == 'SPIN' else 'SPIN'
+        conv = [target]
+        if c.get("to_integer"):
+            new_vt = 'INTEGER'
+            feats["to_integer"] = True
+            if tv == 'BINARY':
+                conv = []
         cqm.change_vartype(new_vt, target)
-        new, conv, d = cqm, [target], ('S2B' if tv == 'SPIN' else 'B2S')
+        new, d = cqm, ('S2B' if tv == 'SPIN' else 'B2S')
+        if new_vt == 'INTEGER' and (cqm.lower_bound(target), cqm.upper_bound(target)) != (0, 1):
+            py_fail = "bounds after the change to INTEGER are not [0, 1]"
     else:
         snapshot = copy.deepcopy(cqm)
         new = cqm.spin_to_binary(inplace=c["inplace"])
@@ -588,6 +747,8 @@ def run_case(c):
     for v in allvars:
         l = dec_label(v[0])
         want = ('BINARY' if d == 'S2B' else 'SPIN') if l in conv else v[1]
+        if kind == 'cqm_change' and c.get("to_integer") and l == target:
+            want = 'INTEGER'
         if new.vartype(l) is not gen.VT[want]:
             py_fail = f"vartype of {l!r} is {new.vartype(l)}, expected {want}"
     vtnew = dict(vtmap)
@@ -600,6 +761,7 @@ def run_case(c):
     # the C++ / python loops on the raw index-level state of objective and every constraint
     if kind == 'cqm_change':
         coqs.insert(0, f"(CqmCv {new_vt} {cnat(cvars.index(target))} {rawc_before} (Some {raw_mcqm(new, labs)}))")
+        coqs[0:0] = refused_terms
     else:
         coqs.insert(0, f"(CqmS2B {rawc_before} {raw_mcqm(new, labs)})")
     return {"coq": coqs[-1], "extra_coq": coqs[:-1], "py_fail": py_fail, "features": feats,
